@@ -825,20 +825,32 @@ theorem items_ok {σ : Schema} (hpp : PP σ) (hwf : σ.WF) : ∀ d ∈ items σ,
     exact hwf.no_empty_type f.ty (mem_allTypes.2 (Or.inl ⟨x, hx', by
       simp only [Struct.types, List.mem_map]; exact ⟨f, hf, rfl⟩⟩))
 
-theorem items_ne {σ : Schema} (h : σ.structs ≠ []) : items σ ≠ [] := by
-  intro hc
-  have hl := congrArg List.length hc
-  have := (sortBy_perm (·.name) σ.structs).length_eq
-  simp only [items, List.length_append, List.length_map, List.length_nil] at hl
-  have : σ.structs.length = 0 := by omega
-  exact h (List.eq_nil_of_length_eq_zero this)
+/-- a schema without definitions: the grammar phase rebuilds the empty schema. -/
+theorem rawSchema_of_items_nil {σ : Schema} (h : items σ = []) : rawSchema σ = { pkg := σ.pkg } := by
+  simp only [items, List.append_eq_nil_iff, List.map_eq_nil_iff] at h
+  simp [rawSchema, h.1.1, h.1.2, h.2]
 
 /-- The grammar phase run on (any token list with the kinds of) the printed text of `σ`
-    rebuilds `σ` with unresolved type references, definitions in printing order. -/
+    rebuilds `σ` with unresolved type references, definitions in printing order. A schema
+    without definitions prints as its package clause only, which `Parser.Parse` accepts (the
+    definition loop is `for token != EOF`). -/
 theorem grammar_toks {σ : Schema} {ts : List Token} (h : Toks ts (tkSchema σ)) (hpp : PP σ)
-    (hwf : σ.WF) (hsafe : σ.structs ≠ []) : ∃ ts', grammar ts = .ok (rawSchema σ) ts' := by
-  have hne := items_ne hsafe
+    (hwf : σ.WF) : ∃ ts', grammar ts = .ok (rawSchema σ) ts' := by
   simp only [tkSchema, tkDefs_eq, List.append_assoc] at h
+  by_cases hne : items σ = []
+  · rw [hne] at h
+    simp only [itemsToks, List.nil_append] at h
+    obtain ⟨ts1, e1, h1⟩ := eat_toks h (by simp)
+    obtain ⟨ts2, e2, h2⟩ := parsePackageLoop_toks σ.pkg (ts1.length + 1) [] ts1 .eof [] hpp.pkg_ne h1
+      (by simp) (by
+        have := h1.length
+        have := tkPkgPath_length σ.pkg
+        simp only [List.length_append, List.length_cons] at *
+        omega)
+    obtain ⟨t, r, rfl, ht, _⟩ := h2.cons_inv
+    refine ⟨t :: r, ?_⟩
+    simp only [List.nil_append] at e2
+    simp [grammar, parsePackage, e1, e2, ht, rawSchema_of_items_nil hne]
   obtain ⟨k, L, hk⟩ : ∃ k L, itemsToks (items σ) ++ [Tok.eof] = .kw k :: L := by
     cases hi : items σ with
     | nil => exact absurd hi hne
@@ -857,6 +869,9 @@ theorem grammar_toks {σ : Schema} {ts : List Token} (h : Toks ts (tkSchema σ))
       have := tkPkgPath_length σ.pkg
       simp only [List.length_append, List.length_cons] at *
       omega)
+  have hcur : (cur ts2).tok ≠ .eof := by
+    obtain ⟨t, r, rfl, ht, _⟩ := h2.cons_inv
+    simp [ht]
   rw [← hk] at h2
   obtain ⟨ts3, e3⟩ := parseDefs_toks (items σ) (ts2.length + 1) { pkg := σ.pkg } ts2 hne h2
     (by
@@ -869,6 +884,6 @@ theorem grammar_toks {σ : Schema} {ts : List Token} (h : Toks ts (tkSchema σ))
   refine ⟨ts3, ?_⟩
   rw [foldl_items] at e3
   simp only [List.nil_append] at e2
-  simp [grammar, parsePackage, e1, e2, e3]
+  simp [grammar, parsePackage, e1, e2, e3, hcur]
 
 end Stef.Idl
